@@ -111,9 +111,8 @@ func (pa *pkgAn) freshOf(fd *ast.FuncDecl) *freshInfo {
 				for i, nme := range x.Names {
 					if i < len(x.Values) {
 						note(nme, pa.freshExpr(x.Values[i], 0, fi))
-					} else {
-						note(nme, false)
 					}
+					// `var v *T` alone assigns nothing (nil): the assignments that follow decide
 				}
 			case *ast.RangeStmt:
 				if x.Key != nil {
